@@ -92,6 +92,41 @@ func (c *c14) Plan(seed uint64, tier string, worker, workers, idx int) *Plan {
 		}
 		return ops
 	}
+	if r.Chance(1, 8) {
+		// a crowd: many extensions on ONE parent (slice growth, counters, small fixed
+		// arrays), several of them accepting the same input; the newest accepting one wins
+		in := universe[r.Intn(len(universe))]
+		x := lib.Header(in.Bytes(), p.Limit0)
+		path := pathOf(in.Fam)
+		parent := path[r.Intn(len(path))]
+		var ops []Op
+		n := []int{3, 5, 8, 9, 12, 16, 17, 24, 33, 40}[r.Intn(10)]
+		for k := 0; k < n; k++ {
+			var e *model.Ext
+			if r.Chance(1, 2) {
+				e = g.accepting(parent, x)
+			} else {
+				e = g.ext()
+				e.Parent, e.ParentExt = parent, -1
+				e.Mime = fmt.Sprintf("x-verif/e%d", e.ID) // crowds use unique types
+			}
+			ops = append(ops, Op{Kind: "extend", Ext: e})
+			if k == n-1 || r.Chance(1, 3) {
+				ops = append(ops, Op{Kind: "detect", In: &in})
+				other := universe[r.Intn(len(universe))]
+				ops = append(ops, Op{Kind: "detect", In: &other})
+				ops = append(ops, Op{Kind: "lookup", Name: e.Mime, Ext: e})
+				old := g.made[r.Intn(len(g.made))]
+				if old.Mime != e.Mime {
+					names := old.Names()
+					ops = append(ops, Op{Kind: "lookup", Name: names[r.Intn(len(names))], Ext: old})
+				}
+			}
+		}
+		ops = battery(ops, r.Range(2, 6), false)
+		p.Tasks = [][]Op{ops}
+		return p
+	}
 	if r.Chance(1, 6) {
 		// a chain of nested accepting extensions hanging at some level of one input's
 		// path: verdicts many levels below the root, long ancestor chains
